@@ -33,11 +33,11 @@ const (
 )
 
 type Ids struct {
-	addr   map[string]int64 // raw 20 bytes (as string) -> id
-	next   int64
-	denom  map[string]int64
-	dnext  int64
-	tracked []sdk.AccAddress
+	addr       map[string]int64 // raw 20 bytes (as string) -> id
+	next       int64
+	denom      map[string]int64
+	dnext      int64
+	tracked    []sdk.AccAddress
 	trackedIDs []int64
 }
 
